@@ -435,6 +435,10 @@ class Program(BlockBase):  # R201
             # (via Main_Program0) with a program containing no program
             # statement as this is optional in Fortran.
             result = BlockBase.match(Main_Program0, [], None, reader)
+            if result and content:
+                # Keep the comments (and any program units) that were
+                # matched before the main program.
+                result = (content + result[0],)
             return result
         except StopIteration:
             # Reader has no more lines.
